@@ -3218,6 +3218,12 @@ class Value(WithArithmeticMethods, _protocols.ValueProtocol, _display.PrettyPrin
                 raise ValueError(
                     "Initializer value cannot have name set to None. Please pop() the value from initializers first to do so."
                 )
+            if value == "":
+                # The initializers mapping rejects empty keys; check here so that the
+                # value is not left renamed and dropped from the mapping.
+                raise ValueError(
+                    "Initializer value cannot have an empty name. Please pop() the value from initializers first to do so."
+                )
             graph = self._graph
             assert graph is not None
             if value in graph.initializers and graph.initializers[value] is not self:
